@@ -1,5 +1,6 @@
 // C13 — HTTP: complete requests get a well-formed 401, anything else gets silence.
 
+use crate::vf::shadow::{shadow_opt, with_shadow, Shadow};
 use proptest::collection::vec;
 use proptest::prelude::*;
 use serde::{Deserialize, Serialize};
@@ -51,6 +52,9 @@ pub struct Case {
     /// TTL, TCP window, urgent pointer), applied to every frame of the case
     #[serde(default)]
     pub tweak: Option<IpTweak>,
+    /// sibling traffic sent before every frame of the case (vf/shadow.rs)
+    #[serde(default)]
+    pub shadow: Option<Shadow>,
 }
 
 fn fault() -> impl Strategy<Value = Fault> {
@@ -73,9 +77,16 @@ fn fault() -> impl Strategy<Value = Fault> {
 }
 
 pub fn case_strategy() -> impl Strategy<Value = Case> {
+    (case_strategy0(), shadow_opt()).prop_map(|(mut c, sh)| {
+        c.shadow = sh;
+        c
+    })
+}
+
+fn case_strategy0() -> impl Strategy<Value = Case> {
     (scenario(Fam::Any), port(), port(), any::<bool>(), http_req(), fault(), prop::option::weighted(0.3, any::<u16>()), prop::option::weighted(0.3, crate::vf::props::c03::ip_tcp_tweak())).prop_map(|(mut scn, sport, dport, tcp, req, fault, cut, tweak)| {
         scn.cfg.logger = LoggerKind::None;
-        Case { scn, sport, dport, tcp, req, fault, cut, tweak }
+        Case { shadow: None, scn, sport, dport, tcp, req, fault, cut, tweak }
     })
 }
 
@@ -173,6 +184,10 @@ pub fn faulty_bytes(req: &HttpReq, f: &Fault) -> Option<Vec<u8>> {
 }
 
 pub fn check(c: &Case, st: &mut Stats) -> Check {
+    with_shadow(&c.shadow, st, |st| check0(c, st))
+}
+
+fn check0(c: &Case, st: &mut Stats) -> Check {
     Sut::reset();
     st.eval();
     let _ambient = AmbientGuard::set(&c.tweak);
